@@ -847,7 +847,7 @@ inline size_t parse_decimal(const char *begin, size_t len, int &to)
 {
 	const char *bsv(begin);
 	while(len-- > 0)
-		to = (to << 3) + (to << 1) + (*begin++ - '0');
+		to = to * 10 + (*begin++ - '0');	// not a shift: a character below '0' makes the value negative
 	return begin - bsv;
 }
 
@@ -875,10 +875,20 @@ inline time_t time_to_epoch (const tm& ltm, int utcdiff=0)
    };
 
    const int tyears(ltm.tm_year ? ltm.tm_year - 70 : 0); // tm->tm_year is from 1900.
-   time_t tdays(mon_days[ltm.tm_mon] + (ltm.tm_mday ? ltm.tm_mday - 1 : 0) + tyears * 365 + (tyears + 2) / 4); // not int: days * 86400 exceeds 31 bits after 2038-01-19
-	if (ltm.tm_year && ltm.tm_year % 4 == 0 && ltm.tm_mon < 2) // works till 2100, adjust for leap year with jan/feb +1day error
+   const int tmon(ltm.tm_mon < 0 ? 0 : ltm.tm_mon > 11 ? 11 : ltm.tm_mon); // a month outside 1-12 must not index outside the table
+   time_t tdays(mon_days[tmon] + (ltm.tm_mday ? ltm.tm_mday - 1 : 0) + tyears * 365 + (tyears + 2) / 4); // not int: days * 86400 exceeds 31 bits after 2038-01-19
+	if (ltm.tm_year && ltm.tm_year % 4 == 0 && tmon < 2) // works till 2100, adjust for leap year with jan/feb +1day error
 		--tdays;
    return tdays * 86400 + (ltm.tm_hour + utcdiff) * 3600 + ltm.tm_min * 60 + ltm.tm_sec;
+}
+
+/*! Convert seconds since the epoch to ticks (nanoseconds). A year beyond the range of ticks (2262) wraps around
+    instead of overflowing a signed multiplication.
+  \param secs seconds since the epoch
+  \return ticks */
+inline Tickval::ticks epoch_to_ticks(time_t secs)
+{
+	return static_cast<Tickval::ticks>(static_cast<unsigned long long>(secs) * static_cast<unsigned long long>(Tickval::billion));
 }
 
 enum TimeIndicator { _time_only, _time_with_ms, _short_date_only, _date_only, _sec_only, _with_ms };
@@ -943,6 +953,8 @@ inline Tickval::ticks date_time_parse(const char *ptr, size_t len)
 		return Tickval(true).get_ticks();
 
 	Tickval::ticks result(Tickval::noticks);
+	if (len != 17 && len != 21)	// any other length is not a timestamp: do not read past the end of the text
+		return result;
 	int millisecond(0);
 	tm tms {};
 
@@ -963,7 +975,7 @@ inline Tickval::ticks date_time_parse(const char *ptr, size_t len)
 		parse_decimal(++ptr, 3, millisecond);
 		result = millisecond * Tickval::million; // drop through
 	case 17: //: // 19981231-23:59:59
-		result += time_to_epoch(tms) * Tickval::billion;
+		result += epoch_to_ticks(time_to_epoch(tms));
 		break;
 	default:
 		break;
@@ -983,6 +995,8 @@ inline Tickval::ticks time_parse(const char *ptr, size_t len, bool timeonly=fals
 		return Tickval(true).get_ticks();
 
 	Tickval::ticks result(Tickval::noticks);
+	if (len != 8 && len != 12)	// any other length is not a time: do not read past the end of the text
+		return result;
    int millisecond(0);
    tm tms {};
 
@@ -998,7 +1012,7 @@ inline Tickval::ticks time_parse(const char *ptr, size_t len, bool timeonly=fals
       result = millisecond * Tickval::million; // drop through
    case 8: // 23:59:59
 		if (!timeonly)
-			result += time_to_epoch(tms) * Tickval::billion;
+			result += epoch_to_ticks(time_to_epoch(tms));
 		else
 			result += (tms.tm_hour * 3600ULL + tms.tm_min * 60ULL + tms.tm_sec) * Tickval::billion;
       break;
@@ -1014,6 +1028,8 @@ inline Tickval::ticks date_parse(const char *ptr, size_t len)
 	if (len == 0 || (*ptr == 'n' && len == 3 && *(ptr + 1) == 'o' && *(ptr + 2) == 'w'))	// special cases initialise to 'now'
 		return Tickval(true).get_ticks();
 
+	if (len < 6)	// shorter than YYYYMM: do not read past the end of the text
+		return Tickval::noticks;
    tm tms {};
 	ptr += parse_decimal(ptr, 4, tms.tm_year);
 	tms.tm_year -= 1900;
@@ -1023,7 +1039,7 @@ inline Tickval::ticks date_parse(const char *ptr, size_t len)
 		parse_decimal(ptr, 2, tms.tm_mday);
 	else
 		tms.tm_mday = 1;
-	return time_to_epoch(tms) * Tickval::billion;
+	return epoch_to_ticks(time_to_epoch(tms));
 }
 
 //-------------------------------------------------------------------------------------------------
